@@ -97,7 +97,7 @@ CLAIMED = {
     "C15": ("Lean 4 theorems C15_resources (<=1 transport and <=1 ping thread at every prefix, fully general), C15_stops, C15_retry, C15_interval, C15b.C15_retry_keepalive, C14d.C15_no_attempt_after_close" + T_CORR,
             "Proof: resource bound for every world/plan/schedule; the reconnect loop does nothing once keep_running is cleared and a server "
             "close frame or close() clears it; retry skeleton and exact interval for failed first attempts followed by any number of failures. "
-            "The external dispatcher is not modelled (real runs + Spec only); the former finding F16 (exceptions under an external dispatcher) is repaired in /repo.", "", "DESIGN.md §6 C15"),
+            "The external dispatcher is not modelled (real runs + Spec only); the former findings F16 (exceptions under an external dispatcher) and F18 (close() from another thread during the reconnect delay was followed by one more connection attempt; /repo 8a1f51a, generated fact appReconnectGuard) are repaired in /repo.", "", "DESIGN.md §6 C15"),
     "C16": ("Lean 4 theorems C16_args (iff), C16_periodic, C16_no_false_positive (all arrival patterns/schedules), C16_detect (every accepted pair), C16b.C16_ping_payload (every ping of every run carries ping_payload)" + T_CORR + " in virtual time",
             "Proof: argument validation exactly as documented and before connecting; pings at start+k*iv; a peer answering every ping within "
             "the timeout is never reported; a peer that stops answering is reported within (T+to, T+2*to] of the first unanswered ping T for "
